@@ -195,15 +195,19 @@ class verneed_iter_versions:
 
 
 def _linked(name, want):
-    @contract("elftools/elf/elffile.py", "ELFFile." + name, props=["C03", "C15"])
+    @contract("elftools/elf/elffile.py", "ELFFile." + name, props=["C01", "C03", "C15"])
     class _l:
         """section links are followed with target type validation"""
         params = dict(self=ELFFileT(_section_header_stringtable=Opt(SectionT('StringTableSection'))), n=Nat)
-        requires = ELFFILE_INV + ["self.header.e_shoff + n * self.header.e_shentsize <= self.stream_len"]
+        requires = ELFFILE_INV
         returns = Obj('Section', header=ShdrT, name=Str)
-        ghost = {"$h": "P('Elf_Shdr', self.stream.B, self.header.e_shoff + n * self.header.e_shentsize)"}
-        ensures = ["result.header == $h", "result.header.sh_type in %r" % (want,)]
-        may_raise = ["ELFError", "OverflowError"]
+        ghost = {"$o": "self.header.e_shoff + n * self.header.e_shentsize",
+                 "$h": "P('Elf_Shdr', self.stream.B, self.header.e_shoff + n * self.header.e_shentsize)"}
+        ensures = ["result.header == $h", "result.header.sh_type in %r" % (want,), "$o <= self.stream_len"]
+        # a link to a slot that starts beyond the end of the file: the header lookup answers None and the type test
+        # subscripts it (TypeError: allowed from an enumeration by C19, never reached by the constructor); so may the
+        # construction of the linked section itself, which follows its own link
+        may_raise = ["ELFError", "OverflowError", "TypeError"]
     return _l
 
 
